@@ -185,7 +185,7 @@ def build():
     world.call_hooks.append(call)
     world.attr_hooks.insert(0, lambda m, o, n: VPy(("superinit",)) if isinstance(o, VPy) and o.obj == ("super",) and n == "__init_subclass__" else None)
     A(Contract("pyoak.typing:check_annotations", params={"type_": "Cls", "node_base_type": "Cls"}, returns="bool", trusted=True, props=P,
-               raises=[("InvalidFieldAnnotations", "*")], trusted_reason="definition-time annotation check (C11); may reject the class"))
+               raises=[("InvalidFieldAnnotations", "*")], trusted_reason="definition-time annotation check, proved under C11 (contracts.classify_area); here only: may reject the class"))
     world.exc_parents["InvalidFieldAnnotations"] = "Exception"
 
     def init_subclass_hook(m):
